@@ -1849,41 +1849,49 @@ def bipartite_random_regular(l, r, d, seed=None):
         raise ValueError(
             "bipartite_random_regular(l,r,d) needs r to divid l*d.")
 
-    G = BipartiteGraph(l, r)
-    G.name = "bipartite_random_regular({},{},{})".format(l, r, d)
+    # A dead end restarts the construction from scratch. Dense
+    # requests may need hundreds of restarts, so this is a loop and not
+    # a recursive call (which would exhaust the recursion limit).
+    restart = True
+    while restart:
+        restart = False
 
-    L, R = G.parts()
-    A = list(L) * d
-    B = list(R) * (l * d // r)
-    assert len(B) == l * d
+        G = BipartiteGraph(l, r)
+        G.name = "bipartite_random_regular({},{},{})".format(l, r, d)
 
-    for i in range(l * d):
-        # Sample an edge, do not add it if it existed
-        # We expect to sample at most d^2 edges
-        for retries in range(3 * d * d):
-            ea = random.randint(i, l * d - 1)
-            eb = random.randint(i, l * d - 1)
-            if not G.has_edge(A[ea], B[eb]):
+        L, R = G.parts()
+        A = list(L) * d
+        B = list(R) * (l * d // r)
+        assert len(B) == l * d
+
+        for i in range(l * d):
+            # Sample an edge, do not add it if it existed
+            # We expect to sample at most d^2 edges
+            for retries in range(3 * d * d):
+                ea = random.randint(i, l * d - 1)
+                eb = random.randint(i, l * d - 1)
+                if not G.has_edge(A[ea], B[eb]):
+                    G.add_edge(A[ea], B[eb])
+                    A[i], A[ea] = A[ea], A[i]
+                    B[i], B[eb] = B[eb], B[i]
+                    break
+            else:
+                # Sampling takes too long, maybe no good edge exists
+                failure = True
+                for ea in range(i, l * d):
+                    for eb in range(i, l * d):
+                        if not G.has_edge(A[ea], B[eb]):
+                            failure = False
+                            break
+                    if not failure:
+                        break
+                if failure:
+                    restart = True
+                    break
+                # use the available edge just found
                 G.add_edge(A[ea], B[eb])
                 A[i], A[ea] = A[ea], A[i]
                 B[i], B[eb] = B[eb], B[i]
-                break
-        else:
-            # Sampling takes too long, maybe no good edge exists
-            failure = True
-            for ea in range(i, l * d):
-                for eb in range(i, l * d):
-                    if not G.has_edge(A[ea], B[eb]):
-                        failure = False
-                        break
-                if not failure:
-                    break
-            if failure:
-                return bipartite_random_regular(l, r, d)
-            # use the available edge just found
-            G.add_edge(A[ea], B[eb])
-            A[i], A[ea] = A[ea], A[i]
-            B[i], B[eb] = B[eb], B[i]
 
     return G
 
